@@ -293,6 +293,7 @@ class Interp(object):
         self.current_line = None
         self.sys_path = ['<sys.path[0]>']
         self.sys_modules = None       # a concrete dict replaces the symbolic sys.modules when set
+        self._class_attr_values = {}
         self.fs_dirs = None           # directory -> listing, for os.listdir
         self.memoise_cached = False
         self.nodevisitor_model = False
@@ -556,7 +557,7 @@ class Interp(object):
                 return fv
             for c in v.cls.mro():
                 if attr in c.class_attrs:
-                    return self.eval(c.class_attrs[attr], Frame(c.rel, self.module_env(c.rel), {}))
+                    return self.class_attr(c, attr)
             hook = self.attr_hooks.get(v.cls.name)
             if hook is not None:
                 r = hook(self, v, attr)
@@ -604,7 +605,7 @@ class Interp(object):
                 return FuncVal(m.rel, m.node, None, None, m.cls)
             for c in v.info.mro():
                 if attr in c.class_attrs:
-                    return self.eval(c.class_attrs[attr], Frame(c.rel, self.module_env(c.rel), {}))
+                    return self.class_attr(c, attr)
             if attr == '__name__':
                 return v.info.name
             raise InterpRaise('AttributeError', 'class %s has no attribute %r' % (v.info.name, attr), node)
@@ -628,6 +629,10 @@ class Interp(object):
                 and callable(getattr(getattr(_builtins, v.name), attr, None)):
             um = getattr(getattr(_builtins, v.name), attr)       # unbound method of a builtin type: str.lower, dict.get ...
             return Native('%s.%s' % (v.name, attr), lambda it, a, k, _m=um: _m(*a, **k), False)
+        if isinstance(v, Native) and attr in ('__name__', '__doc__'):
+            return v.name if attr == '__name__' else None
+        if isinstance(v, FuncVal) and attr in ('__name__', '__doc__') and attr not in v.attrs:
+            return v.name if attr == '__name__' else None
         if isinstance(v, NullLogger):
             if attr == 'getLogger':
                 return Native('getLogger', lambda it, a, k: NullLogger())
@@ -713,6 +718,13 @@ class Interp(object):
         raise Uninterpretable('SymSet.%s' % attr)
 
     # ---- natives on abstract values ------------------------------------------------
+    def class_attr(self, c, attr):
+        """A class attribute is evaluated once: a mutable value is one object shared by all instances."""
+        key = (c.rel, c.name, attr)
+        if key not in self._class_attr_values:
+            self._class_attr_values[key] = self.eval(c.class_attrs[attr], Frame(c.rel, self.module_env(c.rel), {}))
+        return self._class_attr_values[key]
+
     def nat_isinstance(self, args, kwargs):
         v, c = args
         classes = c if isinstance(c, tuple) else (c,)
@@ -838,6 +850,10 @@ class Interp(object):
     def nat_filter(self, args, kwargs):
         f, it = args
         return [x for x in self.iterate(it) if (self.truth(x, None) if f is None else self.truth(self.call(f, [x], {}), None))]
+
+    def nat_map(self, args, kwargs):
+        f = args[0]
+        return [self.call(f, list(xs), {}) for xs in zip(*[self.iterate(a) for a in args[1:]])]
 
     def nat_zip(self, args, kwargs):
         return list(zip(*[self.iterate(a) for a in args]))
